@@ -93,7 +93,15 @@ def extract(repo):
         prec = []
         for pn, po in ps:
             pnum, pnamed = _slots(type(po), po, T._BaseSlotTypes)
-            prec.append({"name": pn, "hash": int(po._hash) if isinstance(po._hash, int) else 0, "hash_is_int": isinstance(po._hash, int),
+            meth = []
+            for mname in ("Average", "Sum", "Minimum", "Maximum"):
+                try:
+                    mo = getattr(po, mname)
+                    meth.append({"m": mname, "cls": type(mo).__name__, "prefab": list(str(getattr(mo, "_prefab_name", "")).encode("utf-8")),
+                                 "named": list(str(getattr(type(po)("nm"), mname)._name).encode("utf-8"))})
+                except Exception as e:
+                    meth.append({"m": mname, "cls": "!" + type(e).__name__, "prefab": [], "named": []})
+            prec.append({"name": pn, "hash": int(po._hash) if isinstance(po._hash, int) else 0, "hash_is_int": isinstance(po._hash, int), "methods": meth,
                          "prefab": list(str(po._prefab_name).encode("utf-8")), "numbered": pnum, "named": pnamed,
                          "logic": _logic(type(po), po, (T._DevicesLogicType,), lt_members),
                          "reachable": getattr(sg, pn, None) is po})
